@@ -11,7 +11,6 @@ Proof.
   destruct t as [|w|p]; cbn [lstep] in H.
   - destruct (own l); try discriminate;
       try (inversion H; subst l'; exact IH);
-      destruct (shutdown_done (base l)); try (inversion H; subst l'; exact IH);
       destruct (step TDestroy (base l)) eqn:E; try discriminate; inversion H; subst l'; cbn; eapply reach_step; eauto.
   - destruct (step (TWorker w) (base l)) eqn:E; [|discriminate]. inversion H; subst l'. cbn. eapply reach_step; eauto.
   - destruct (own l); try discriminate. destruct (step (TProd p) (base l)) eqn:E; [|discriminate].
@@ -31,8 +30,12 @@ Definition LInv (l : lst) : Prop :=
   | OAlive | OShut1 => part l = PartAlive
   | OTear => part l = PartAlive /\ d (base l) = DJoined
   | OMembers => part l = PartDying /\ d (base l) = DJoined
-  | OShut2 | ODone => part l = PartDead /\ d (base l) = DJoined
+  | OShut2 => False                       (* with a leading shutdown() the base destructor only ever repeats it *)
+  | OAgain1 | OAgain2 | ODone => part l = PartDead /\ d (base l) = DJoined
   end.
+
+Lemma shutdown_done_iff : forall s, shutdown_done s = true <-> d s = DJoined.
+Proof. intros s. unfold shutdown_done. destruct (d s); split; intros; try discriminate; reflexivity. Qed.
 
 Lemma linv_step : forall m sc l t l', lreach true m sc l -> LInv l -> lstep true t l = Some l' -> LInv l'.
 Proof.
@@ -42,20 +45,22 @@ Proof.
   destruct t as [|w|p]; cbn [lstep] in H.
   - destruct (own l) eqn:EO.
     + inversion H; subst l'. split; cbn; auto.
-    + unfold shutdown_done in H. destruct (d (base l)) eqn:ED.
-      4: { inversion H; subst l'. split; cbn; auto. }
-      all: destruct (step TDestroy (base l)) eqn:E; try discriminate; inversion H; subst l'; split; cbn; auto.
+    + destruct (step TDestroy (base l)) as [b|] eqn:E; [|discriminate]. inversion H; subst l'. split; [exact Hh|].
+      cbn [own part base]. destruct (shutdown_done b) eqn:SD; [|exact Ho]. split; [exact Ho|apply shutdown_done_iff; exact SD].
     + destruct Ho as [Hp Hd]. destruct (J Hd) as [A _]. inversion H; subst l'. split; cbn.
       * rewrite Hh, (all_done_no_handling _ A). reflexivity.
       * auto.
-    + destruct Ho as [Hp Hd]. destruct (J Hd) as [A _]. inversion H; subst l'. split; cbn.
+    + destruct Ho as [Hp Hd]. destruct (J Hd) as [A _]. inversion H; subst l'. split; cbn [hazard own part base].
       * rewrite Hh, (all_done_no_handling _ A). reflexivity.
-      * auto.
-    + destruct Ho as [Hp Hd]. unfold shutdown_done in H. rewrite Hd in H. inversion H; subst l'. split; cbn; auto.
+      * rewrite (proj2 (shutdown_done_iff _) Hd). auto.
+    + destruct Ho.
+    + inversion H; subst l'. split; cbn; auto.
+    + inversion H; subst l'. split; cbn; auto.
     + discriminate.
   - destruct (step (TWorker w) (base l)) eqn:E; [|discriminate]. inversion H; subst l'.
     unfold LInv. cbn [own part hazard base]. destruct (own l) eqn:EO.
     1,2: split; [rewrite Hh, Ho; cbn; rewrite andb_false_r; reflexivity|exact Ho].
+    3: destruct Ho.
     all: exfalso; destruct Ho as [_ Hd]; destruct (J Hd) as [_ N]; rewrite N in E; discriminate.
   - destruct (own l) eqn:EO; try discriminate. destruct (step (TProd p) (base l)) eqn:E; [|discriminate].
     inversion H; subst l'. split; cbn; rewrite ?EO; auto.
